@@ -21,6 +21,7 @@ from .speceval import SpecCtx
 
 class Conc:
     def index_locks(self):
+        self.token_decls = {}     # struct type -> {token name -> (lock field, take ast, drop ast, decl)}
         self.lock_decls = {}      # struct type -> {lock field -> [guarded fields]}
         self.guard_of = {}        # (struct type, field) -> lock field
         for t, d in self.type_invs.items():
@@ -35,8 +36,19 @@ class Conc:
                     for f in fields:
                         self.guard_of[(t, f)] = m.group(1)
                 elif cl.kind == "guarantee":
+                    if cl.ast is None:
+                        try:
+                            cl.ast = parse_expr(cl.text)
+                        except SpecError as e:
+                            self.errors.append("%s:%d: %s" % (cl.file, cl.line, e))
+                elif cl.kind == "token":
+                    # token <name> lock <lk> take <expr> drop <expr>   (thread-local ghost, see DESIGN 2.4 "Ghost tokens")
+                    m = re.match(r"^(\w+)\s+lock\s+(\w+)\s+take\s+(.*?)\s+drop\s+(.*)$", cl.text.strip(), re.S)
+                    if not m:
+                        self.errors.append("%s:%d: token syntax: token <name> lock <lk> take <expr> drop <expr>" % (cl.file, cl.line))
+                        continue
                     try:
-                        cl.ast = parse_expr(cl.text)
+                        self.token_decls.setdefault(t, {})[m.group(1)] = (m.group(2), parse_expr(m.group(3)), parse_expr(m.group(4)), d)
                     except SpecError as e:
                         self.errors.append("%s:%d: %s" % (cl.file, cl.line, e))
 
@@ -99,13 +111,17 @@ class Conc:
             selfv = st.load(obj)
             for cl in d.clauses:
                 try:
-                    if cl.kind == "invariant" and cl.ast is not None and cl.extra.get("lock") in (None, lname):
-                        ctx = SpecCtx(self, st, st, {"self": selfv}, fr_pkg=d.pkg)
+                    if cl.kind == "invariant" and cl.ast is not None and cl.extra.get("lock") == lname:
+                        ctx = SpecCtx(self, st, st, {"self": obj}, fr_pkg=d.pkg)
                         ctx.pol = -1
+                        ctx.token_obj = (obj, T)
                         st.assume(to_bool(ctx.eval(self.inv_ast(cl))))
-                    elif cl.kind == "guarantee" and cl.ast is not None:
-                        ctx = SpecCtx(self, st, before, {"self": selfv}, fr_pkg=d.pkg)
+                    elif cl.kind == "guarantee" and cl.ast is not None and cl.extra.get("lock") in (None, lname):
+                        # rely: some other goroutine acted; if we hold a token, it did not
+                        ctx = SpecCtx(self, st, before, {"self": obj}, fr_pkg=d.pkg)
                         ctx.pol = -1
+                        ctx.token_view = "other"
+                        ctx.token_obj = (obj, T)
                         st.assume(to_bool(ctx.eval(cl.ast)))
                 except (SpecError, Unsupported) as e:
                     msg = "%s:%d: %s" % (cl.file, cl.line, e)
@@ -134,25 +150,52 @@ class Conc:
                 o.failed.append({"pos": ins.get("pos"), "reason": "unlock of a lock that is not held on this path"})
             return
         (_, hmode, snap, T, _) = st.held[idx]
-        if snap is not None and not self.quiet:
-            d = self.type_invs.get(T)
+        d = self.type_invs.get(T)
+        obj = None
+        if snap is not None:
             _, obj = self.struct_type_at(p)
+        if snap is not None and not self.quiet:
             selfv = st.load(obj)
             for cl in d.clauses:
-                if cl.kind == "guarantee" and cl.ast is not None:
+                if cl.kind == "guarantee" and cl.ast is not None and cl.extra.get("lock") in (None, lname):
                     o = self.obl("guarantee", "%s:%s" % (lname, cl.label or "g"), cl.tags or None)
                     try:
-                        ctx = SpecCtx(self, st, snap, {"self": selfv}, fr_pkg=d.pkg)
+                        ctx = SpecCtx(self, st, snap, {"self": obj}, fr_pkg=d.pkg)
+                        ctx.token_view = "mine"
+                        ctx.token_obj = (obj, T)
                         goal = to_bool(ctx.eval(cl.ast))
                     except (SpecError, Unsupported) as e:
                         o.instances += 1
                         o.unknown.append({"reason": "spec error: %s" % e})
                         continue
                     self.record(o, st, goal, ins.get("pos"))
-                elif cl.kind == "invariant" and cl.ast is not None and cl.extra.get("lock") in (None, lname):
+        # ghost token updates attached to this lock (after the guarantees, which speak about the token held during the section)
+        if snap is not None:
+            for tname, (tlock, take, drop, tdecl) in (self.token_decls.get(T) or {}).items():
+                if tlock != lname:
+                    continue
+                try:
+                    selfv2 = st.load(obj)
+                    ctx = SpecCtx(self, st, snap, {"self": obj}, fr_pkg=tdecl.pkg)
+                    tk = to_bool(ctx.eval(take))
+                    dr = to_bool(ctx.eval(drop))
+                    key2 = ("token", self.lock_key(st, obj), tname)
+                    cur = st.ghost.get(key2)
+                    if cur is None:
+                        cur = z3.Const("token!%s!%s" % (key2[1], tname), z3.BoolSort())
+                    st.ghost[key2] = z3.simplify(z3.If(tk, z3.BoolVal(True), z3.If(dr, z3.BoolVal(False), cur)))
+                except (SpecError, Unsupported) as e:
+                    msg = "token %s: %s" % (tname, e)
+                    if msg not in self.errors:
+                        self.errors.append(msg)
+        if snap is not None and not self.quiet:
+            selfv = st.load(obj)
+            for cl in d.clauses:
+                if cl.kind == "invariant" and cl.ast is not None and cl.extra.get("lock") == lname:
                     o = self.obl("lock-inv", "%s:%s" % (lname, cl.label or "inv"), cl.tags or None)
                     try:
-                        ctx = SpecCtx(self, st, st, {"self": selfv}, fr_pkg=d.pkg)
+                        ctx = SpecCtx(self, st, st, {"self": obj}, fr_pkg=d.pkg)
+                        ctx.token_obj = (obj, T)
                         goal = to_bool(ctx.eval(self.inv_ast(cl)))
                     except (SpecError, Unsupported) as e:
                         o.instances += 1
@@ -168,7 +211,7 @@ class Conc:
                 o = self.obl("guarantee", "%s:%s" % (lname, cl.label or "g"), cl.tags or None)
                 try:
                     names = dict(self.cur["names"])
-                    names["self"] = selfv
+                    names["self"] = obj
                     ctx = SpecCtx(self, st, snap, names, fr_pkg=fr.fn["pkg"])
                     ctx.name_types = dict(self.cur["name_types"])
                     goal = to_bool(ctx.eval(cl.ast))
@@ -179,6 +222,19 @@ class Conc:
                 self.record(o, st, goal, ins.get("pos"))
         st.ghost[("lastobs", key)] = st.clone() if snap is not None else None
         st.held = st.held[:idx] + st.held[idx + 1:]
+
+    def token_value(self, ctx, obj_ptr, tname):
+        """holds(x.tok): the thread-local ghost token of this activation"""
+        st = ctx.entry if ctx.in_old else ctx.st
+        key = ("token", self.lock_key(st, obj_ptr), tname)
+        mine = st.ghost.get(key)
+        if mine is None:
+            mine = z3.Const("token!%s!%s" % (key[1], tname), z3.BoolSort())   # unknown at function entry
+        if getattr(ctx, "token_view", None) == "other":
+            h = z3.Const(fresh_name("otherholds"), z3.BoolSort())
+            ctx.st.assume(z3.Implies(mine, z3.Not(h)))   # tokens are unique
+            return h
+        return mine
 
     # ownership ---------------------------------------------------------
     def _check_guard(self, fr, st, p, ins, write):
